@@ -296,6 +296,28 @@ theorem C20_bvcd_pool (p ss : List Bytes) :
   intro hl s hs
   exact strOK_of_mem _ hl s ((mem_addAll p ss s).mpr (Or.inr hs))
 
+/-- **Merged images.** `save_scenes_image_sync` on a mix of parsed and lazy entries (raw bytes +
+the pool object of the image they were read from): when no single pool can be reused — lazy
+entries of two different images, or none — the bytes written are `buildImage` of one entry per
+input entry with the same CRC, summary and sound list, its scene decoded through its OWN pool and
+re-encoded against the fresh pool; so `C20_image` / `C20_image_table` apply to a merged file. -/
+theorem C20_image_merge (version : Nat) (es : List MEntry) (b : Bytes)
+    (hm : (poolMode es none).1 = none) (h : saveImage version es = some b) :
+    ∃ entries : List Entry, b = buildImage version entries ∧
+      entries.map (fun e => (e.crc, e.durMs, e.lastMs, e.sounds)) =
+        es.map (fun e => (e.crc, e.durMs, e.lastMs, e.sounds)) :=
+  saveImage_fresh version es b hm h
+
+/-- two lazy entries with different pool objects force a fresh pool; one shared pool is reused. -/
+example :
+    poolMode [{ crc := 1, durMs := 0, lastMs := 0, sounds := [], src := .lazy 0 [[0x61]] [], comp := [] },
+              { crc := 2, durMs := 0, lastMs := 0, sounds := [], src := .lazy 1 [[0x62]] [], comp := [] }] none
+      = (none, true) ∧
+    poolMode [{ crc := 1, durMs := 0, lastMs := 0, sounds := [], src := .lazy 0 [[0x61]] [], comp := [] },
+              { crc := 2, durMs := 0, lastMs := 0, sounds := [], src := .scene { crc := 0, events := [], actors := [], ramp := [], ignorePhonemes := false }, comp := [] },
+              { crc := 3, durMs := 0, lastMs := 0, sounds := [], src := .lazy 0 [[0x61]] [], comp := [] }] none
+      = (some (0, [[0x61]]), false) := by decide
+
 /-! non-vacuity: a scene with every event class, tags, ramp, flex tracks with and without
 direction, relative tag, inactive channel; its own pool. -/
 def sampleScene : Scene :=
